@@ -374,12 +374,50 @@ def check_scsv(case):
     cmax, smax, scsv = tuple(case["cmax"]), tuple(case["smax"]), case["scsv"]
     labels = ["scsv", "cmax=%s" % sc.VERNAME[cmax], "smax=%s" %
               sc.VERNAME[smax], "scsv=%r" % scsv]
+    extra = {}
+    if case.get("sess"):
+        # a suite every version can use, so that the cached session can be
+        # offered again at the lower version
+        extra = dict(cipherNames=["aes128"], macNames=["sha"])
+        labels.append("with-session")
     client = {"settings": sc.mk_settings(minVersion=(3, 0), maxVersion=cmax,
-                                         sendFallbackSCSV=scsv)}
+                                         sendFallbackSCSV=scsv, **extra)}
     server = {"cred": "rsa", "settings": sc.mk_settings(minVersion=(3, 0),
-                                                        maxVersion=smax)}
+                                                        maxVersion=smax,
+                                                        **extra)}
+    if case.get("sess"):
+        from tlslite.api import SessionCache
+        server["sessionCache"] = SessionCache()
+        if case["sess"] == "ticket":
+            server["settings"].ticketKeys = [bytearray(b"s" * 32)]
+        first = {"settings": sc.mk_settings(
+            minVersion=(3, 0), maxVersion=max(cmax, min(smax, (3, 3))),
+            **extra)}
+        DET.reseed("C04scsv-first", cmax, smax)
+        p0 = sc.connect(first, dict(server))
+        if not p0.both_ok:
+            return good(nt=False, labels=labels + ["no-first-session"])
+        sc.do_write(p0, "s", b"x")
+        sc.read_all(p0, "c")
+        client["session"] = p0.c.session
     DET.reseed("C04scsv", cmax, smax, scsv)
-    p = sc.connect(client, server)
+    try:
+        p = sc.connect(client, server)
+    except ValueError:
+        return good(nt=False, labels=labels + ["session-refused-by-api"])
+    if isinstance(p.co.exc, ValueError):
+        return good(nt=False, labels=labels + ["session-refused-by-api"])
+    # what the client put on the wire
+    from vlib import tap
+    try:
+        ch = tap.parse_client_hello(
+            tap.plaintext_flight(p.link.wire("c"))[0][0][1])
+        if scsv and 0x5600 not in ch["suites"]:
+            return bad("client-omits-fallback-scsv",
+                       "sendFallbackSCSV=True but the ClientHello carries "
+                       "suites %r" % (ch["suites"],), labels=labels)
+    except (IndexError, KeyError, ValueError):
+        pass
     if cmax == (3, 4) and smax == (3, 0):
         # a TLS 1.3 capable client does not list SSLv3 in
         # supported_versions: no common version, unrelated to the SCSV
@@ -395,6 +433,11 @@ def check_scsv(case):
             return bad("fallback-scsv-wrong-alert", describe_exc(e),
                        labels=labels)
         return good(labels=labels)
+    if case.get("sess"):
+        # whether and how the offered session is resumed across a version
+        # change is C13's subject; here only the SCSV clauses are judged
+        return good(nt=scsv, labels=labels + [
+            "completed" if p.both_ok else "failed"])
     if not p.both_ok:
         return bad("scsv-refuses-legitimate-handshake:%s/%s" % (
             sc.VERNAME[cmax], sc.VERNAME[smax]), "%r %r" % (p.co, p.so),
@@ -474,3 +517,8 @@ def explicit(tier, seed):
             for scsv in (True, False):
                 yield {"k": "scsv", "cmax": list(cmax), "smax": list(smax),
                        "scsv": scsv}
+                if cmax < (3, 4):
+                    for sess in ("id", "ticket"):
+                        yield {"k": "scsv", "cmax": list(cmax),
+                               "smax": list(smax), "scsv": scsv,
+                               "sess": sess}
